@@ -216,6 +216,12 @@ func genC20(t *rapid.T) ModelCase {
 		c.ClearTerminateAt = []int{rapid.IntRange(1, len(c.Inputs)-1).Draw(t, "clearat")}
 	}
 	c.First = chancePct(t, 25, "first")
+	if chancePct(t, 20, "reuse") {
+		// a worker that keeps its persister (and what it loaded last) between requests, with
+		// another session taking turns: an ended session's record replaces all of it
+		c.Mode.Reuse = []string{"keep", "keep", "flush"}[uniformN(t, 3, "reusekind")]
+		c.Prior = genGuidedHistory(t, a, 10, true)
+	}
 	return c
 }
 
@@ -246,6 +252,9 @@ func checkC20(c ModelCase) (o Outcome) {
 	}
 	if len(c.ClearTerminateAt) > 0 {
 		o.class("operator-step")
+	}
+	if c.Mode.Reuse != "" {
+		o.class("reused-persister:" + c.Mode.Reuse)
 	}
 	o.class("backend:" + c.Mode.Backend)
 	if f.bail != "" {
